@@ -21,7 +21,7 @@ REPO = os.environ.get("VERIF_REPO", "/repo")
 LEAN = os.path.join(VERIF, "lean")
 HARNESS = os.path.join(VERIF, "harness")
 EXTRACT = os.path.join(VERIF, "tools", "extract")
-WORK = os.path.join(VERIF, ".work")
+WORK = os.environ.get("VERIF_WORK", os.path.join(VERIF, ".work"))
 EVIDENCE = os.path.join(VERIF, "evidence")
 ALLOWED_AXIOMS = {"propext", "Classical.choice", "Quot.sound"}
 FORBIDDEN = re.compile(r"\b(sorry|admit|native_decide|bv_decide|implemented_by)\b|^\s*axiom\s|unsafe\s|maxHeartbeats\s+0")
@@ -167,9 +167,14 @@ def build_harness():
     """Build vh (tag verif) against /repo's current working tree. go.sum is
     refreshed from /repo; /repo itself is never the main module."""
     with FileLock("build"):
-        shutil.copyfile(os.path.join(REPO, "go.sum"), os.path.join(HARNESS, "go.sum"))
-        out = os.path.join(HARNESS, "vh")
-        rc, o = sh(["go", "build", "-tags", "verif", "-o", out, "./cmd/vh"], cwd=HARNESS, env=GOENV, timeout=1800)
+        os.makedirs(os.path.join(WORK, "bin"), exist_ok=True)
+        # an alternate go.mod (outside the tracked tree) whose replace points at the tree under check
+        mod = open(os.path.join(HARNESS, "go.mod")).read().replace("=> /repo", "=> " + REPO)
+        alt = os.path.join(WORK, "harness.go.mod")
+        open(alt, "w").write(mod)
+        shutil.copyfile(os.path.join(REPO, "go.sum"), os.path.join(WORK, "harness.go.sum"))
+        out = os.path.join(WORK, "bin", "vh")
+        rc, o = sh(["go", "build", "-modfile", alt, "-tags", "verif", "-o", out, "./cmd/vh"], cwd=HARNESS, env=GOENV, timeout=1800)
     return rc, o, out
 
 
